@@ -73,6 +73,18 @@ M = [
  ("c14_skip_bits_keeps_buf", "C14", "buf-not-cleared-before-skip", "crates/jxl-bitstream/src/bitstream.rs",
   "        self.num_read_bits += self.remaining_buf_bits;\n        self.buf = 0;\n        self.remaining_buf_bits = 0;",
   "        self.num_read_bits += self.remaining_buf_bits;\n        self.buf >>= self.remaining_buf_bits;\n        self.remaining_buf_bits = 0;"),
+ ("c17_status_skips_xmp_decoding_probe", "C17", "probe:xmp:is_decoding", "crates/jxl-oxide/src/lib.rs",
+  "                    if xml.is_decoding() {\n                        return JpegReconstructionStatus::NeedMoreData;\n                    } else if xml.is_not_found() {",
+  "                    if xml.is_not_found() {"),
+ ("c17_app_marker_length_unvalidated", "C17", "R-FIELDRANGE", "crates/jxl-jbr/src/lib.rs",
+  "        if (length as usize) < min_length {\n            tracing::error!(ty, length, min_length, \"APP marker is too short\");\n            return Err(jxl_bitstream::Error::ValidationFailed(\n                \"APP marker is too short for its type\",\n            ));\n        }\n",
+  "        let _ = min_length;\n"),
+ ("c17_reconstruct_without_frame_check", "C17", "reconstruct-needs-frame", "crates/jxl-oxide/src/lib.rs",
+  "        if self.num_loaded_frames() == 0 {\n            return Err(jxl_jbr::Error::FrameDataIncomplete.into());\n        }\n", ""),
+ ("c17_scan_component_index_unchecked", "C17", "comp_idx", "crates/jxl-jbr/src/reconstruct.rs",
+  "                    if c.comp_idx as usize >= num_components {", "                    if c.comp_idx as usize > num_components {"),
+ ("c01_spectral_selection_unchecked", "C01", "R-FIELDRANGE", "crates/jxl-jbr/src/reconstruct.rs",
+  "                if si.ss > si.se {\n", "                if si.ss > 63 {\n"),
  ("c09_eof_exit_without_carry", "C09", "return-without-carry", "crates/jxl-oxide/src/lib.rs",
   "                Err(e) if e.unexpected_eof() => {\n                    self.buffer = buf.to_vec();\n                    return Ok(());\n                }\n                Err(e) => {\n                    return Err(e.into());\n                }\n            };\n            let frame_index = frame.index();",
   "                Err(e) if e.unexpected_eof() => {\n                    return Ok(());\n                }\n                Err(e) => {\n                    return Err(e.into());\n                }\n            };\n            let frame_index = frame.index();"),
